@@ -1,4 +1,5 @@
 import GodiProofs.Container.History
+import GodiProofs.Container.Cascade
 /-!
 # C13 — Closed means closed (sequential clauses)
 
@@ -57,5 +58,25 @@ theorem provider_close_disposes (beh : Beh) (order : List Nat → List Nat) (st 
 theorem provider_close_again_noop (beh : Beh) (order : List Nat → List Nat) (st : State) (h : st.disposed = true) :
     closeProvider beh order st = (st, false) := by
   unfold closeProvider; simp [h]
+
+/-- CASCADE: closing a scope disposes the scope and every child it has (and, the same theorem applied
+to each child, every descendant), for every iteration order of the child table -/
+theorem close_cascades (beh : Beh) (order : List Nat → List Nat) (f : Nat) (st : State) (s : Nat)
+    (hopen : (st.scope s).disposed = false) (hf : (order ((st.scope s).children.getD [])).length + 1 ≤ f) :
+    (((closeScope beh order (f + 1) st s).1).scope s).disposed = true ∧
+    ∀ c ∈ order ((st.scope s).children.getD []), (((closeScope beh order (f + 1) st s).1).scope c).disposed = true :=
+  closeScope_cascade beh order f st s hopen hf
+
+/-- CLOSED STAYS CLOSED: no Close (of any scope, with any fuel and order) ever makes a disposed
+scope usable again -/
+theorem disposed_is_forever (beh : Beh) (order : List Nat → List Nat) (f : Nat) (st : State) (s x : Nat)
+    (h : (st.scope x).disposed = true) : (((closeScope beh order f st s).1).scope x).disposed = true :=
+  (closeScope_dispMono beh order f).1 st s x h
+
+/-- closing a list of scopes (what `Provider.Close` does with its table) disposes each of them -/
+theorem closing_all_disposes_all (beh : Beh) (order : List Nat → List Nat) (l : List Nat) (fuel : Nat) (st : State)
+    (hf : l.length + 1 ≤ fuel) (c : Nat) (hc : c ∈ l) :
+    (((closeChildren beh order fuel st l).1).scope c).disposed = true :=
+  closeChildren_disposes_all beh order l fuel st hf c hc
 
 end Godi.Props.C13
